@@ -402,6 +402,44 @@ func (s *SchedWorld) RSnapGet(name string, key []byte) {
 	}
 }
 
+// RStats reads the allocation statistics (takes the three free-list locks).
+func (s *SchedWorld) RStats(name string) {
+	BeginOp("AllocStats")
+	s.Colls[name].AllocStats()
+	m := map[string]uint64{}
+	s.St.Stats(m)
+}
+
+// SeqSnapshot takes a snapshot during setup (contents = V0 of every collection).
+func (s *SchedWorld) SeqSnapshot() {
+	BeginOp("setup")
+	s.Snap = s.St.Snapshot()
+}
+
+// CheckSnapshot: the setup snapshot still shows V0 of every collection.
+func (s *SchedWorld) CheckSnapshot() {
+	if s.Snap == nil {
+		return
+	}
+	BeginOp("final-snapshot")
+	for n := range s.Colls {
+		c := s.Snap.GetCollection(n)
+		if c == nil {
+			s.Fail("concurrent", "snapshot-lost-collection", "the snapshot lost collection %s", n)
+			continue
+		}
+		want := expectRead(s.Versions[n][0], "Asc", "")
+		var sb strings.Builder
+		err := c.VisitItemsAscend([]byte{}, true, func(it *gkvlite.Item) bool {
+			fmt.Fprintf(&sb, "%s=%s;", it.Key, it.Val)
+			return true
+		})
+		if err != nil || sb.String() != want {
+			s.Fail("concurrent", "snapshot-changed", "after all threads finished the snapshot of collection %s reads %q (err %v), it was taken on %q", n, sb.String(), err, want)
+		}
+	}
+}
+
 // FFlush is the flusher's operation.
 func (s *SchedWorld) FFlush() {
 	BeginOp("Flush")
